@@ -129,6 +129,12 @@ def r3_readers_below_published(cx):
                 if not io <= do | {("param", 1)}:
                     ok = False
         cx.ob("R3", "R3/decode-before-slice@%s" % m, ok, h, "SeekableDecoder::%s calls decode_to(end) before touching decoded_slice(), with the bound derived from the same arguments" % m)
+
+
+def r3c_decode_to_waits(cx):
+    """a reader waits until the bytes it asked for are published: a `wait_while(published < end)`, not a single wait
+    (the worker notifies after every chunk)"""
+    F = cx.F
     k = F.one(impl_self="compression::SeekableDecoder", item="decode_to", closure=False)
     # decode_to blocks on the condition variable of the published length until `published >= end`; the helpers of
     # compression.rs between decode_to and Condvar::wait_while are transparent (inlined view)
@@ -383,7 +389,8 @@ r6_witness.only_configs = ("lib-all3",)
 RULES = [
     ("R1", r1_publish, 6),
     ("R2", r2_no_realloc, 3),
-    ("R3", r3_readers_below_published, 7),
+    ("R3", r3_readers_below_published, 5),
+    ("R3", r3c_decode_to_waits, 2),
     ("R4", r4_lock_order, 5),
     ("R5", r5_unsafe_inventory, 4),
     ("R6", r6_witness, 1),
